@@ -112,3 +112,125 @@ package trustpolicy
 
 // a valid domain / repository contains none of the characters that could make two different references select the same scope
 //@ lemma[C08.scope-charset] forall(d, string, forall(r, string, domainOK(d) && repositoryOK(r) ==> !in_re(d + "/" + r, "[@* ]") && !in_re(r, "[A-Z:]")))
+
+// ---- private copies (C08) ----
+
+//@ pure func sameStrings(a []string, b []string) bool = len(a) == len(b) && forall(i, 0, len(a), a[i] == b[i])
+//@ pure func privateStrings(a []string) bool = len(a) == 0 || fresh(a)
+//@ pure func sameSV(a SignatureVerification, b SignatureVerification) bool = a.VerificationLevel == b.VerificationLevel && a.VerifyTimestamp == b.VerifyTimestamp && (a.Override == nil) == (b.Override == nil) && forall(k, ValidationType, has(a.Override, k) == has(b.Override, k) && a.Override[k] == b.Override[k])
+
+//@ func (SignatureVerification).clone
+//@ props C08
+//@ ensures[C08.sv-copy] sameSV(result, signatureVerification)
+//@ ensures[C08.private] result.Override == nil || fresh(result.Override)
+//@ loop 1 invariant cloned.VerificationLevel == signatureVerification.VerificationLevel && cloned.VerifyTimestamp == signatureVerification.VerifyTimestamp && cloned.Override != nil && fresh(cloned.Override)
+//@ loop 1 invariant forall(k, ValidationType, has(cloned.Override, k) == (visited(k) && has(signatureVerification.Override, k)))
+//@ loop 1 invariant forall(k, ValidationType, visited(k) ==> cloned.Override[k] == signatureVerification.Override[k])
+//@ loop 1 modifies mapobj(cloned.Override)
+
+//@ func (*OCITrustPolicy).clone
+//@ props C08
+//@ requires t != nil
+//@ ensures[C08.copy] result != nil && result.Name == t.Name && sameStrings(result.RegistryScopes, t.RegistryScopes) && sameStrings(result.TrustStores, t.TrustStores) && sameStrings(result.TrustedIdentities, t.TrustedIdentities) && sameSV(result.SignatureVerification, t.SignatureVerification)
+//@ ensures[C08.private] fresh(result) && privateStrings(result.RegistryScopes) && privateStrings(result.TrustStores) && privateStrings(result.TrustedIdentities) && (result.SignatureVerification.Override == nil || fresh(result.SignatureVerification.Override))
+
+//@ func (*BlobTrustPolicy).clone
+//@ props C08
+//@ requires t != nil
+//@ ensures[C08.copy] result != nil && result.Name == t.Name && result.GlobalPolicy == t.GlobalPolicy && sameStrings(result.TrustStores, t.TrustStores) && sameStrings(result.TrustedIdentities, t.TrustedIdentities) && sameSV(result.SignatureVerification, t.SignatureVerification)
+//@ ensures[C08.private] fresh(result) && privateStrings(result.TrustStores) && privateStrings(result.TrustedIdentities) && (result.SignatureVerification.Override == nil || fresh(result.SignatureVerification.Override))
+
+// ---- statement selection (C08) ----
+
+//@ pure func exactFor(p OCITrustPolicy, path string) bool = !hasStr(p.RegistryScopes, "*") && hasStr(p.RegistryScopes, path)
+//@ pure func wildFor(p OCITrustPolicy) bool = hasStr(p.RegistryScopes, "*")
+//@ pure func copyOf(r *OCITrustPolicy, p OCITrustPolicy) bool = r != nil && r.Name == p.Name && sameStrings(r.RegistryScopes, p.RegistryScopes) && sameStrings(r.TrustStores, p.TrustStores) && sameStrings(r.TrustedIdentities, p.TrustedIdentities) && sameSV(r.SignatureVerification, p.SignatureVerification)
+//@ pure func privateOCI(r *OCITrustPolicy) bool = fresh(r) && privateStrings(r.RegistryScopes) && privateStrings(r.TrustStores) && privateStrings(r.TrustedIdentities) && (r.SignatureVerification.Override == nil || fresh(r.SignatureVerification.Override))
+
+//@ func (*OCIDocument).GetApplicableTrustPolicy
+//@ props C08
+//@ requires policyDoc != nil
+//@ ensures[C08.path]     result1 == nil ==> contains(artifactReference, "@") && scopeFormatOK(lastBefore(artifactReference, "@"))
+//@ ensures[C08.exact]    result1 == nil && exists(i, 0, len(policyDoc.TrustPolicies), exactFor(policyDoc.TrustPolicies[i], lastBefore(artifactReference, "@"))) ==> exists(i, 0, len(policyDoc.TrustPolicies), exactFor(policyDoc.TrustPolicies[i], lastBefore(artifactReference, "@")) && copyOf(result, policyDoc.TrustPolicies[i]))
+//@ ensures[C08.wildcard] result1 == nil && !exists(i, 0, len(policyDoc.TrustPolicies), exactFor(policyDoc.TrustPolicies[i], lastBefore(artifactReference, "@"))) ==> exists(i, 0, len(policyDoc.TrustPolicies), wildFor(policyDoc.TrustPolicies[i]) && copyOf(result, policyDoc.TrustPolicies[i]))
+//@ ensures[C08.refuse]   forall(i, 0, len(policyDoc.TrustPolicies), !exactFor(policyDoc.TrustPolicies[i], lastBefore(artifactReference, "@")) && !wildFor(policyDoc.TrustPolicies[i])) ==> result1 != nil
+//@ ensures[C08.private]  result1 == nil ==> privateOCI(result)
+//@ ensures result1 != nil ==> result == nil
+//@ loop 1 invariant (applicablePolicy == nil) == forall(i, 0, rangeindex+1, !exactFor(policyDoc.TrustPolicies[i], artifactPath))
+//@ loop 1 invariant applicablePolicy != nil ==> privateOCI(applicablePolicy)
+//@ loop 1 invariant applicablePolicy != nil ==> exists(i, 0, rangeindex+1, exactFor(policyDoc.TrustPolicies[i], artifactPath) && copyOf(applicablePolicy, policyDoc.TrustPolicies[i]))
+//@ loop 1 invariant (wildcardPolicy == nil) == forall(i, 0, rangeindex+1, !wildFor(policyDoc.TrustPolicies[i]))
+//@ loop 1 invariant wildcardPolicy != nil ==> privateOCI(wildcardPolicy)
+//@ loop 1 invariant wildcardPolicy != nil ==> exists(i, 0, rangeindex+1, wildFor(policyDoc.TrustPolicies[i]) && copyOf(wildcardPolicy, policyDoc.TrustPolicies[i]))
+
+//@ pure func copyOfBlob(r *BlobTrustPolicy, p BlobTrustPolicy) bool = r != nil && r.Name == p.Name && r.GlobalPolicy == p.GlobalPolicy && sameStrings(r.TrustStores, p.TrustStores) && sameStrings(r.TrustedIdentities, p.TrustedIdentities) && sameSV(r.SignatureVerification, p.SignatureVerification)
+//@ pure func privateBlob(r *BlobTrustPolicy) bool = fresh(r) && privateStrings(r.TrustStores) && privateStrings(r.TrustedIdentities) && (r.SignatureVerification.Override == nil || fresh(r.SignatureVerification.Override))
+
+//@ func (*BlobDocument).GetApplicableTrustPolicy
+//@ props C08
+//@ requires policyDoc != nil
+//@ ensures[C08.blob-name] result1 == nil ==> policyName != "" && exists(i, 0, len(policyDoc.TrustPolicies), policyDoc.TrustPolicies[i].Name == policyName && copyOfBlob(result, policyDoc.TrustPolicies[i]))
+//@ ensures[C08.blob-refuse] forall(i, 0, len(policyDoc.TrustPolicies), policyDoc.TrustPolicies[i].Name != policyName) ==> result1 != nil
+//@ ensures[C08.private] result1 == nil ==> privateBlob(result)
+//@ ensures result1 != nil ==> result == nil
+//@ loop 1 invariant forall(i, 0, rangeindex+1, policyDoc.TrustPolicies[i].Name != policyName)
+
+//@ func (*BlobDocument).GetGlobalTrustPolicy
+//@ props C08
+//@ requires policyDoc != nil
+//@ ensures[C08.blob-global] result1 == nil ==> exists(i, 0, len(policyDoc.TrustPolicies), policyDoc.TrustPolicies[i].GlobalPolicy && copyOfBlob(result, policyDoc.TrustPolicies[i]))
+//@ ensures[C08.blob-refuse] forall(i, 0, len(policyDoc.TrustPolicies), !policyDoc.TrustPolicies[i].GlobalPolicy) ==> result1 != nil
+//@ ensures[C08.private] result1 == nil ==> privateBlob(result)
+//@ ensures result1 != nil ==> result == nil
+//@ loop 1 invariant forall(i, 0, rangeindex+1, !policyDoc.TrustPolicies[i].GlobalPolicy)
+
+// ---- document-level rules (C09) ----
+
+//@ pure func blobStmtOK(p BlobTrustPolicy) bool = coreOK(p.Name, p.SignatureVerification, p.TrustStores, p.TrustedIdentities)
+//@ pure func blobWF(d *BlobDocument) bool = d != nil && d.Version == "1.0" && len(d.TrustPolicies) > 0 && forall(s, 0, len(d.TrustPolicies), blobStmtOK(d.TrustPolicies[s])) && forall(s, 0, len(d.TrustPolicies), forall(u, 0, s, d.TrustPolicies[s].Name != d.TrustPolicies[u].Name)) && forall(s, 0, len(d.TrustPolicies), forall(u, 0, s, !(d.TrustPolicies[s].GlobalPolicy && d.TrustPolicies[u].GlobalPolicy))) && forall(s, 0, len(d.TrustPolicies), d.TrustPolicies[s].GlobalPolicy ==> d.TrustPolicies[s].SignatureVerification.VerificationLevel != "skip")
+
+//@ func (*BlobDocument).Validate
+//@ props C09
+//@ ensures[C09.blob-wf] result == nil ==> blobWF(policyDoc)
+//@ loop 1 invariant forall(s, 0, rangeindex+1, blobStmtOK(policyDoc.TrustPolicies[s]))
+//@ loop 1 invariant forall(s, 0, rangeindex+1, has(policyNames, policyDoc.TrustPolicies[s].Name))
+//@ loop 1 invariant forall(s, 0, rangeindex+1, forall(u, 0, s, policyDoc.TrustPolicies[s].Name != policyDoc.TrustPolicies[u].Name))
+//@ loop 1 invariant forall(s, 0, rangeindex+1, policyDoc.TrustPolicies[s].GlobalPolicy ==> foundGlobalPolicy)
+//@ loop 1 invariant forall(s, 0, rangeindex+1, forall(u, 0, s, !(policyDoc.TrustPolicies[s].GlobalPolicy && policyDoc.TrustPolicies[u].GlobalPolicy)))
+//@ loop 1 invariant forall(s, 0, rangeindex+1, policyDoc.TrustPolicies[s].GlobalPolicy ==> policyDoc.TrustPolicies[s].SignatureVerification.VerificationLevel != "skip")
+//@ loop 1 modifies mapobj(policyNames)
+
+//@ pure func scopesOK(p OCITrustPolicy) bool = len(p.RegistryScopes) >= 1 && (len(p.RegistryScopes) > 1 ==> !hasStr(p.RegistryScopes, "*")) && forall(i, 0, len(p.RegistryScopes), p.RegistryScopes[i] == "*" || scopeFormatOK(p.RegistryScopes[i]))
+//@ pure func scopeAt(d *OCIDocument, s int, i int) string = d.TrustPolicies[s].RegistryScopes[i]
+//@ pure func scopesUnique(d *OCIDocument) bool = forall(s, 0, len(d.TrustPolicies), forall(i, 0, len(d.TrustPolicies[s].RegistryScopes), forall(u, 0, len(d.TrustPolicies), forall(j, 0, len(d.TrustPolicies[u].RegistryScopes), (s != u || i != j) ==> scopeAt(d, s, i) != scopeAt(d, u, j)))))
+
+//@ func validateRegistryScopes
+//@ props C09 C08
+//@ nooverflow
+//@ requires policyDoc != nil
+//@ ensures[C09.scopes-ok]     result == nil ==> forall(s, 0, len(policyDoc.TrustPolicies), scopesOK(policyDoc.TrustPolicies[s]))
+//@ ensures[C09.scopes-unique] result == nil ==> scopesUnique(policyDoc)
+//@ loop 1 invariant forall(s, 0, rangeindex+1, scopesOK(policyDoc.TrustPolicies[s]))
+//@ loop 1 invariant forall(k, string, registryScopeCount[k] >= 0)
+//@ loop 1 invariant forall(s, 0, rangeindex+1, forall(i, 0, len(policyDoc.TrustPolicies[s].RegistryScopes), registryScopeCount[scopeAt(policyDoc, s, i)] >= 1))
+//@ loop 1 invariant forall(s, 0, rangeindex+1, forall(i, 0, len(policyDoc.TrustPolicies[s].RegistryScopes), forall(u, 0, rangeindex+1, forall(j, 0, len(policyDoc.TrustPolicies[u].RegistryScopes), (s != u || i != j) && scopeAt(policyDoc, s, i) == scopeAt(policyDoc, u, j) ==> registryScopeCount[scopeAt(policyDoc, s, i)] >= 2))))
+//@ loop 2 invariant forall(s, 0, rangeindex_L1+1, scopesOK(policyDoc.TrustPolicies[s]))
+//@ loop 2 invariant forall(i, 0, rangeindex+1, scopeAt(policyDoc, rangeindex_L1+1, i) == "*" || scopeFormatOK(scopeAt(policyDoc, rangeindex_L1+1, i)))
+//@ loop 2 invariant forall(k, string, registryScopeCount[k] >= 0)
+//@ loop 2 invariant forall(s, 0, rangeindex_L1+1, forall(i, 0, len(policyDoc.TrustPolicies[s].RegistryScopes), registryScopeCount[scopeAt(policyDoc, s, i)] >= 1))
+//@ loop 2 invariant forall(i, 0, rangeindex+1, registryScopeCount[scopeAt(policyDoc, rangeindex_L1+1, i)] >= 1)
+//@ loop 2 invariant forall(s, 0, rangeindex_L1+1, forall(i, 0, len(policyDoc.TrustPolicies[s].RegistryScopes), forall(u, 0, rangeindex_L1+1, forall(j, 0, len(policyDoc.TrustPolicies[u].RegistryScopes), (s != u || i != j) && scopeAt(policyDoc, s, i) == scopeAt(policyDoc, u, j) ==> registryScopeCount[scopeAt(policyDoc, s, i)] >= 2))))
+//@ loop 2 invariant forall(s, 0, rangeindex_L1+1, forall(i, 0, len(policyDoc.TrustPolicies[s].RegistryScopes), forall(j, 0, rangeindex+1, scopeAt(policyDoc, s, i) == scopeAt(policyDoc, rangeindex_L1+1, j) ==> registryScopeCount[scopeAt(policyDoc, s, i)] >= 2)))
+//@ loop 2 invariant forall(i, 0, rangeindex+1, forall(j, 0, rangeindex+1, i != j && scopeAt(policyDoc, rangeindex_L1+1, i) == scopeAt(policyDoc, rangeindex_L1+1, j) ==> registryScopeCount[scopeAt(policyDoc, rangeindex_L1+1, i)] >= 2))
+//@ loop 3 invariant forall(k, string, visited(k) ==> registryScopeCount[k] <= 1)
+
+//@ pure func ociStmtOK(p OCITrustPolicy) bool = coreOK(p.Name, p.SignatureVerification, p.TrustStores, p.TrustedIdentities)
+//@ pure func ociWF(d *OCIDocument) bool = d != nil && d.Version == "1.0" && len(d.TrustPolicies) > 0 && forall(s, 0, len(d.TrustPolicies), ociStmtOK(d.TrustPolicies[s])) && forall(s, 0, len(d.TrustPolicies), forall(u, 0, s, d.TrustPolicies[s].Name != d.TrustPolicies[u].Name)) && forall(s, 0, len(d.TrustPolicies), scopesOK(d.TrustPolicies[s])) && scopesUnique(d)
+
+//@ func (*OCIDocument).Validate
+//@ props C09
+//@ ensures[C09.oci-wf] result == nil ==> ociWF(policyDoc)
+//@ loop 1 invariant forall(s, 0, rangeindex+1, ociStmtOK(policyDoc.TrustPolicies[s]))
+//@ loop 1 invariant forall(s, 0, rangeindex+1, has(policyNames, policyDoc.TrustPolicies[s].Name))
+//@ loop 1 invariant forall(s, 0, rangeindex+1, forall(u, 0, s, policyDoc.TrustPolicies[s].Name != policyDoc.TrustPolicies[u].Name))
+//@ loop 1 modifies mapobj(policyNames)
